@@ -400,6 +400,58 @@ fn check_other(rep: &mut Report) {
     }
 }
 
+/// warm start: the driver takes over lines that are not at the idle level it assumes (all chip selects
+/// asserted, D/C high) and the first traffic is a write, without reset(): every byte must still reach only
+/// the sub-display that owns it - the per-controller streams must equal those of a start on released lines
+fn check_power_on(rep: &mut Report) {
+    let rst = Pin::RstM1S1.bit() | Pin::RstM2S2.bit();
+    let cs = Pin::CsM1.bit() | Pin::CsS1.bit() | Pin::CsM2.bit() | Pin::CsS2.bit();
+    let dc = Pin::DcM1S1.bit() | Pin::DcM2S2.bit();
+    let benign = rst | cs;
+    let hostile: [(&str, u16); 4] = [("all-selected", rst), ("all-selected,dc-high", rst | dc), ("lower-pair-selected", rst | Pin::CsM2.bit() | Pin::CsS2.bit()), ("upper-pair-selected,dc-high", rst | dc | Pin::CsM1.bit() | Pin::CsS1.bit())];
+    let rb = (W / 8) as usize;
+    let firsts: Vec<Op12> = vec![
+        Op12::Write1(pixels(rb, H as usize, 0xA1)),
+        Op12::Write2(pixels(rb, 3, 0xA2)),
+        Op12::Write1Partial((632, 484, 32, 16), pixels(4, 16, 0xA3)),
+        Op12::Write2Partial((8, 8, 64, 4), pixels(8, 4, 0xA4)),
+    ];
+    let stream = |levels: u16, op: &Op12| -> Option<Vec<Vec<(u8, u32, u64)>>> {
+        let mut rig = Rig12::new(|b| b.levels = levels);
+        if !rig.apply(op).is_ok() {
+            return None;
+        }
+        let b = rig.board.borrow();
+        Some(b.chips.iter().map(|c| c.cmds.iter().map(|r| (r.op, r.nparams, r.hash)).collect()).collect())
+    };
+    for op in &firsts {
+        let base = stream(benign, op);
+        for (name, lv) in hostile {
+            rep.eval("epd12in48b_v2");
+            rep.nontrivial(hash_str(&format!("c15pl|{}|{}", name, op.to_json().to_string())));
+            let got = stream(lv, op);
+            let (Some(base), Some(got)) = (&base, &got) else {
+                continue;
+            };
+            for chip in 0..4 {
+                rep.count("power_on_streams_compared", 1);
+                if base[chip] != got[chip] {
+                    let k = base[chip].iter().zip(got[chip].iter()).position(|(a, b)| a != b).unwrap_or(base[chip].len().min(got[chip].len()));
+                    rep.fail(Failure {
+                        panel: "epd12in48b_v2".into(),
+                        entry: op.name().into(),
+                        class: "cs-not-exclusive".into(),
+                        tags: vec![format!("chip={}", CHIP_NAMES[chip]), format!("power-on={}", name)],
+                        detail: format!("first call after new() without reset(), lines powering up as {}: controller {} decodes {:02X?} as command #{} instead of {:02X?} - it was (de)selected by the power-on level, not by the driver", name, CHIP_NAMES[chip], got[chip].get(k).map(|r| (r.0, r.1)), k, base[chip].get(k).map(|r| (r.0, r.1))),
+                        case: J::obj().set("panel", "epd12in48b_v2").set("op", op.to_json()).set("power_on_levels", name),
+                    });
+                    break;
+                }
+            }
+        }
+    }
+}
+
 pub fn run(ctx: &Ctx) -> Report {
     let mut cases: Vec<Case> = Vec::new();
     let mut rng = Rng::derive(ctx.seed, 0xC15);
@@ -559,5 +611,6 @@ pub fn run(ctx: &Ctx) -> Report {
         check_mode(cfg, true, &mut rep);
     }
     check_other(&mut rep);
+    check_power_on(&mut rep);
     rep
 }
